@@ -40,6 +40,14 @@ CHECKS.update({
  "C17": ("forkprobe","differential: Origin::extract vs an independent decoder on generated siginfo images; real deliveries by 12 mechanisms vs getpid/getuid/child pid","§5 C17",
          "Exploration over synthetic records (tens of thousands per run) plus every sending mechanism for real."),
 })
+CHECKS.update({
+ "C09": ("vsched-fork","generated consumer mode x exfiltrator x deliveries/add_signal x nested deliveries x byte schedule with a quiescence observer; every finished delivery of a watched signal must be reported before the system comes to rest","§5 C09",
+         "Exploration over interleavings of deliveries with the consumer's read/drain/scan steps on a real socketpair; lost wake-ups show as unreported signals at quiescence."),
+ "C10": ("vsched-fork","same scenarios; per-yield counting invariant, watched-set membership, record-to-delivery matching by unique sender id, per-signal order","§5 C10",
+         "Exploration with an invariant checked at every yield of the recorded history."),
+ "C11": ("vsched-fork","same scenarios with close()/is_closed() at generated instants; stickiness, no blocked thread after close, poll contract (Pending only after the callback said 'nothing')","§5 C11",
+         "Exploration over close instants; the async adapters are represented by a harness poller with their documented behaviour."),
+})
 NA = []
 ALL = ["C%02d"%i for i in range(1,19)]
 checks=[]
@@ -61,7 +69,7 @@ m={
  "setup_cmd":"cd /verif/harness && CARGO_NET_OFFLINE=true cargo build --release --offline",
  "hooks":{"guard":"sighook_verif","enable":"RUSTFLAGS=\"--cfg sighook_verif\" (set in /verif/harness/.cargo/config.toml)","baseline_off_cmd":"cd /repo && cargo test --workspace --no-fail-fast --offline","source_commits":hook_ids,"add_only":True},
  "engines":[
-   {"name":"vsched-fork","path":"/verif/harness/src/reg.rs","serves_properties":["C01","C02","C03","C04","C18"],"kind_free_text":"the same executor, one forked child per case; deliveries are direct calls of the library's real dispatcher placed by the schedule (own thread or nested on the interrupted thread); real sigaction dispositions"},
+   {"name":"vsched-fork","path":"/verif/harness/src/reg.rs","serves_properties":["C01","C02","C03","C04","C09","C10","C11","C18"],"kind_free_text":"the same executor, one forked child per case; deliveries are direct calls of the library's real dispatcher placed by the schedule (own thread or nested on the interrupted thread); real sigaction dispositions"},
    {"name":"forkprobe","path":"/verif/harness/src/forkrun.rs","serves_properties":["C05","C12","C13","C14","C15","C16","C17"],"kind_free_text":"sequential generated histories interpreted against the real API in a forked child (real signals), observations streamed over a pipe, compared with a reference model or the kernel; how the child ended is an observation"},
    {"name":"vsched-inproc","path":"/verif/harness/src/vsched.rs","serves_properties":["C06","C07","C08"],"kind_free_text":"schedule-owning executor: token-passing OS threads, byte-encoded schedules, C11-subset memory model with vector clocks, nested operations; proptest generators and shrinking"},
  ],
